@@ -165,6 +165,8 @@ impl RollState {
 
     fn age_rotation_necessary(age: Age, created_at: &DateTime<Local>) -> bool {
         let now = Local::now();
+        #[cfg(flexi_logger_verif)]
+        let now = crate::verif_hooks::now();
         match age {
             Age::Day => {
                 created_at.year() != now.year()
@@ -481,6 +483,10 @@ impl State {
                             current_infix.clone()
                         } else {
                             *ts = Local::now();
+                            #[cfg(flexi_logger_verif)]
+                            {
+                                *ts = crate::verif_hooks::now();
+                            }
                             self.config.file_spec.collision_free_infix_for_rotated_file(
                                 &infix_from_timestamp(ts, self.config.use_utc, fmt),
                             )
@@ -496,10 +502,16 @@ impl State {
                         numbers::number_infix(*idx_state)
                     }
                 };
+                #[cfg(flexi_logger_verif)]
+                crate::verif_hooks::point("rot.infix_chosen");
                 let (new_write, new_path) = open_log_file(&self.config, Some(&infix))?;
+                #[cfg(flexi_logger_verif)]
+                crate::verif_hooks::point("rot.opened");
 
                 *current_write = new_write;
                 *current_path = new_path;
+                #[cfg(flexi_logger_verif)]
+                crate::verif_hooks::point("rot.mounted");
 
                 rotation_state.roll_state.reset_size_and_date(current_path);
 
@@ -528,7 +540,16 @@ impl State {
             });
 
         if let Inner::Active(ref mut o_rotation_state, ref mut log_file, ref _path) = self.inner {
+            #[cfg(flexi_logger_verif)]
+            {
+                crate::verif_hooks::point("write.before");
+                if let Some(e) = crate::verif_hooks::fault("write", _path) {
+                    return Err(e);
+                }
+            }
             log_file.write_all(buf)?;
+            #[cfg(flexi_logger_verif)]
+            crate::verif_hooks::point("write.after");
 
             if let Some(ref mut rotation_state) = o_rotation_state {
                 rotation_state.roll_state.increase_size(buf.len() as u64);
@@ -539,6 +560,10 @@ impl State {
 
     pub fn reopen_outputfile(&mut self) -> Result<(), std::io::Error> {
         if let Inner::Active(_, ref mut file, ref p_path) = self.inner {
+            #[cfg(flexi_logger_verif)]
+            if let Some(e) = crate::verif_hooks::fault("reopen", p_path) {
+                return Err(e);
+            }
             match OpenOptions::new().create(true).append(true).open(p_path) {
                 Ok(f) => {
                     // proved to work on standard windows, linux, mac
@@ -657,12 +682,24 @@ fn open_log_file(
         self::platform::create_symlink_if_possible(link, &path);
     }
 
+    #[cfg(flexi_logger_verif)]
+    {
+        crate::verif_hooks::point("open.before");
+        if let Some(e) = crate::verif_hooks::fault("open", &path) {
+            return Err(e);
+        }
+    }
     let logfile = OpenOptions::new()
         .write(true)
         .create(true)
         .append(config.append)
         .truncate(!config.append)
         .open(&path)?;
+    #[cfg(flexi_logger_verif)]
+    {
+        crate::verif_hooks::record_creation(&path);
+        crate::verif_hooks::point("open.after");
+    }
 
     let w: Box<dyn Write + Send> = if let Some(capacity) = config.write_mode.buffersize() {
         Box::new(BufWriter::with_capacity(capacity, logfile))
@@ -673,6 +710,10 @@ fn open_log_file(
 }
 
 fn get_creation_timestamp(path: &Path) -> DateTime<Local> {
+    #[cfg(flexi_logger_verif)]
+    if let Some(t) = crate::verif_hooks::creation_time(path) {
+        return t;
+    }
     // On windows, we know that try_get_creation_date() returns a result, but it is wrong.
     if cfg!(target_os = "windows") {
         get_current_timestamp()
@@ -693,6 +734,8 @@ fn try_get_modification_timestamp(path: &Path) -> Result<DateTime<Local>, FlexiL
     Ok(d.into())
 }
 fn get_current_timestamp() -> DateTime<Local> {
+    #[cfg(flexi_logger_verif)]
+    use crate::verif_hooks::VLocal as Local;
     Local::now()
 }
 
@@ -712,6 +755,8 @@ pub(super) fn start_async_fs_writer(
                     match receiver.recv() {
                         Err(_) => break,
                         Ok(mut message) => {
+                            #[cfg(flexi_logger_verif)]
+                            crate::verif_hooks::point("async.received");
                             let mut state = am_state.lock().unwrap(/* ok */);
                             match message.as_ref() {
                                 ASYNC_FLUSH => {
@@ -802,6 +847,8 @@ mod platform {
             }
         }
 
+        #[cfg(flexi_logger_verif)]
+        crate::verif_hooks::point("symlink.removed");
         // create new symlink
         if let Err(e) = std::os::unix::fs::symlink(logfile, link) {
             eprint_err(ErrorCode::Symlink, "cannot create symlink to logfile", &e);
